@@ -32,7 +32,14 @@ CONFIGS = ["", "clean_qq", "qq_depth_min.1", "qq_depth.1", "qq_depth_max.2", "br
 CLEAN_CONFIGS = [c for c in CONFIGS if "clean_qq" in c]
 
 
+SUFFIXES = ["", "", "", ".", ". ", ";", ",", ".\n"]      # what ends the tract description after the last component
+
+
 def case():
+    return st.tuples(_case(), st.sampled_from(SUFFIXES)).map(lambda t: dict(t[0], suffix=t[1]))
+
+
+def _case():
     plain = st.fixed_dictionaries({"sc": aq.spelled_chain_strategy(1, 4), "config": st.sampled_from(CONFIGS)})
     # bare two-letter quarters anywhere in a chain are documented spellings under clean_qq
     bare = st.fixed_dictionaries({"sc": aq.spelled_chain_strategy(1, 4, bare=True), "config": st.sampled_from(CLEAN_CONFIGS)})
@@ -71,6 +78,8 @@ def classes(c):
     out = [f"fam={f}" for f, _ in c["sc"]["spell"]]
     out += [f"join={j!r}" for j in c["sc"]["joiners"]]
     out.append("clean_qq" if "clean_qq" in c["config"] else "no_clean_qq")
+    if c.get("suffix"):
+        out.append(f"suffix={c['suffix']!r}")
     sp = c["sc"]["spell"]
     if "clean_qq" not in c["config"] and any(f == "bareq" for f, _ in sp):
         out.append("bare_quarter_after_half_without_clean_qq")
@@ -87,8 +96,9 @@ def snapshot(t):
 
 def oracle(c):
     chain = c["sc"]["chain"]
-    text = aq.render_spelled(c["sc"])
-    canon_text = aq.canonical_text(chain)
+    suffix = c.get("suffix", "")
+    text = aq.render_spelled(c["sc"]) + suffix
+    canon_text = aq.canonical_text(chain) + suffix
     cfg = c["config"]
     fails = []
     t = Tract(text, parse_qq=True, config=cfg)
@@ -120,7 +130,7 @@ def oracle(c):
 
 
 def render(c):
-    return {"text": aq.render_spelled(c["sc"]), "canonical": aq.canonical_text(c["sc"]["chain"]), "config": c["config"]}
+    return {"text": aq.render_spelled(c["sc"]) + c.get("suffix", ""), "canonical": aq.canonical_text(c["sc"]["chain"]) + c.get("suffix", ""), "config": c["config"]}
 
 
 # ---------------------------------------------------------------------------
@@ -170,6 +180,13 @@ def oracle_bare(c):
         fails.append(Failure("bare_quarter_after_toggle", f"{text!r}: created with clean_qq={c['clean_qq']}, then parse(clean_qq={not c['clean_qq']}) gives {t.pp_desc!r} {t.qqs}, a fresh Tract gives {other.pp_desc!r} {other.qqs}",
                              text=text))
     t.parse(clean_qq=c["clean_qq"])
+    # ... and the same through re-configuration with an explicit value instead of a keyword
+    r = Tract(text, parse_qq=True, config=cfg)
+    r.config = "clean_qq.False" if c["clean_qq"] else "clean_qq.True"
+    r.parse()
+    if (r.pp_desc, list(r.lots), list(r.qqs)) != (other.pp_desc, list(other.lots), list(other.qqs)):
+        fails.append(Failure("bare_quarter_after_reconfiguration", f"{text!r}: created with clean_qq={c['clean_qq']}, then .config = 'clean_qq.{not c['clean_qq']}' and parse() gives {r.pp_desc!r} {r.qqs}, a fresh Tract gives {other.pp_desc!r} {other.qqs}",
+                             text=text))
     is_aliquot = (c["q"] + "¼") in t.pp_desc
     if is_aliquot != want:
         fails.append(Failure("bare_quarter", f"{text!r} [clean_qq={c['clean_qq']}]: bare {q!r} treated as aliquot={is_aliquot}, expected {want} (pp_desc {t.pp_desc!r})",
@@ -239,7 +256,7 @@ def lots_classes(c):
 SUBS = [
     Sub("spellings", oracle, strategy=lambda tier: case(), validate=validate, nontrivial=nontrivial, classes=classes, render=render,
         n={"quick": 2500, "thorough": 30000}, shards={"quick": 8, "thorough": 16},
-        essential=("bare_quarter_after_half_without_clean_qq", "chain_continues_after_bare_quarter", "run_of_bare_quarters", "fam=word", "fam=bare", "fam=bare_sp", "fam=slash_sp", "fam=dot", "fam=bareq", "join=''", "join=' of the '", "join=' OF THE '", "join='\\n'", "clean_qq")),
+        essential=("suffix='.'", "join='\\n        '", "bare_quarter_after_half_without_clean_qq", "chain_continues_after_bare_quarter", "run_of_bare_quarters", "fam=word", "fam=bare", "fam=bare_sp", "fam=slash_sp", "fam=dot", "fam=bareq", "join=''", "join=' of the '", "join=' OF THE '", "join='\\n'", "clean_qq")),
     Sub("with_lots", oracle_lots, strategy=lambda tier: lots_case(), validate=validate, nontrivial=lambda c: bool(_last_lots.get("div")), classes=lots_classes,
         render=lambda c: {"text": aq.render_spelled(c["sc"]) + c["tail"], "config": c["config"]},
         n={"quick": 600, "thorough": 8000}, shards={"quick": 4, "thorough": 16}, essential=("lot_division_reported", "fam=bareq", "clean_qq")),
